@@ -17,6 +17,10 @@
 (*   varmap            : Kore variables -> metavariables not injective     *)
 (*   conv-commute      : instantiate(convert(rule), convert(sigma)) #      *)
 (*                       convert(rule sigma)                               *)
+(*   hints-verdict / hints-claims : ExecutionProofExp.from_proof_hints on  *)
+(*                       the same trace (with the post-configurations the  *)
+(*                       trace reports, possibly stale) disagrees with the *)
+(*                       step-by-step run                                  *)
 (***************************************************************************)
 EXTENDS MLCore, Json, IOUtils, TLCExt, SequencesExt
 CONSTANTS BlockSize
@@ -65,6 +69,14 @@ CheckCase(i) ==
   LET c == Cases[i] IN
   IF c.out # "ok" THEN "definition-refused"
   ELSE IF \E k \in 1..Len(c.convs) : ~Injective(c.convs[k].varmap) THEN "varmap"
-  ELSE Walk(c, 1, Expand(c.init), 0, <<>>)
+  ELSE LET w == Walk(c, 1, Expand(c.init), 0, <<>>)
+           allok == \A k \in 1..Len(c.steps) : c.steps[k].out = "ok" IN
+       IF w # "" THEN w
+       \* the whole trace through from_proof_hints: accepted iff every step is (the per-step outcomes were just validated),
+       \* whatever configurations the trace itself reports, and then it claims the same instantiated rules in order
+       ELSE IF Len(c.steps) = 0 THEN ""
+       ELSE IF (c.hints_out = "ok") # allok THEN "hints-verdict"
+       ELSE IF allok /\ ExpSeq(c.hints_claims) # ExpSeq(c.steps[Len(c.steps)].claims_after) THEN "hints-claims"
+       ELSE ""
 INSTANCE TraceBlocks WITH NCases <- Len(Cases), Check <- CheckCase
 =============================================================================
